@@ -33,6 +33,8 @@ CAT = {
     'RaiseBadNameNul': (I1, 'RaiseBadNameNul', '', '', 'raise', 'Err.BadNameNul', 1),
     # an exception that cannot even be turned into text: the caller still gets its one error reply
     'RaiseMute': (I1, 'RaiseMute', '', '', 'raise', 'Err.Mute', 1),
+    # an exception class that lives inside the exported class: named by its own name, like any other
+    'RaiseNested': (I1, 'RaiseNested', '', '', 'raise', 'Err.Nested', 1),
     'Unenc': (I1, 'Unenc', '', 'u', 'unencodable', 'Err.Unencodable', 1),
     'Arity': (I1, 'Arity', '', 'us', 'unencodable', 'Err.Unencodable', 1),
     'Caller': (I1, 'Caller', '', 's', 'value', 'Caller', 1),
@@ -139,6 +141,13 @@ def build():
         def dbus_RaiseBadNameNul(self):
             self.log('RaiseBadNameNul', (), None)
             raise BadNameError('wor\0se')
+
+        class Locked(Exception):
+            pass
+
+        def dbus_RaiseNested(self):
+            self.log('RaiseNested', (), None)
+            raise self.Locked('shut')
 
         def dbus_RaiseMute(self):
             self.log('RaiseMute', (), None)
@@ -326,6 +335,8 @@ class ObjectsDriver:
                 return 'Err.BadNameNul'
             if n == 'org.txdbus.PythonException.Exception' and text and 'nu' in text and text.endswith('l') and '\0' not in text:
                 return 'Err.Nul'
+            if n == 'org.txdbus.PythonException.Locked' and text == 'shut':
+                return 'Err.Nested'
             if n == 'org.txdbus.PythonException.MuteError' and isinstance(text, str):
                 return 'Err.Mute'
             key = find_key(c)
